@@ -258,6 +258,23 @@ Definition tbl_graph : list entry := [
   ("g_node_adjacency", a2 d_backend d_hg (fun B h => e_res e_icf (node_adjacency B h)));
   ("g_indegree", a1 d_icf (fun a => e_rff (indegree a)));
   ("g_kahn", a2 d_backend d_icf (fun B a => e_res (e_pair e_nats e_nats) (kahn B a)));
+  (* further internal functions, reached through the verif-hooks feature *)
+  ("g_dense_relative_indegree", a2 d_icf d_ff (fun a f => e_rff (dense_relative_indegree a f)));
+  ("g_sparse_relative_indegree", a3 d_backend d_icf d_ff
+     (fun B a f => e_res (e_pair e_ff e_ff) (sparse_relative_indegree B a f)));
+  ("g_filter", a2 d_nats d_nats (fun v p => e_rnats (Graph.filter v p)));
+  ("f_map_half_spider", a2 d_ics d_ff (fun w f => e_rff (map_half_spider w f)));
+  ("f_to_operations", a1 d_ohg (fun f => e_res e_ops (to_operations f)));
+  ("f_spider_map_arrow", a4 d_backend d_ohg d_ics d_ohg
+     (fun B f fw fx => e_rohg (spider_map_arrow B Nat.eqb f fw fx)));
+  ("f_interleave_blocks", a2 d_ics d_ics (fun a b => e_rohg (interleave_blocks nat a b)));
+  ("f_partial_dagger", (fun args => match args with
+     | [c; fa; fb; ra; rb] =>
+         match d_ohg c, d_ics fa, d_ics fb, d_ics ra, d_ics rb with
+         | Some c', Some fa', Some fb', Some ra', Some rb' => e_rohg (partial_dagger c' fa' fb' ra' rb')
+         | _, _, _, _, _ => bad
+         end
+     | _ => bad end));
   ("layer", a2 d_backend d_ohg (fun B f => e_res (e_pair e_ff e_nats) (layer B f)));
   ("layered_operations", a2 d_backend d_ohg
      (fun B f => e_res (e_pair (e_list e_nats) e_nats) (layered_operations B f)));
